@@ -315,7 +315,9 @@ def gen_e2e(rng):
     bare_nop = rng.random() < 0.3
     # (every third method is printed before it is run: reading a description must not change it)
     return {"graph": g, "flags": flags, "guard_of": guard_of, "enders": enders, "nsteps": nsteps,
-            "sched": sched, "bare_nop": bare_nop, "printed": rng.random() < 0.35}
+            "sched": sched, "bare_nop": bare_nop, "printed": rng.random() < 0.35,
+            # calls made for their effect only: no assignee
+            "noassign": sorted(x for x in ids if rng.random() < 0.3)}
 
 
 def check_e2e(case, rec, hang_s=30.0):
@@ -341,7 +343,8 @@ def check_e2e(case, rec, hang_s=30.0):
             kw["depends_on"] = frozenset(deps | {"pre_" + x})
             stmts.append(FailStep(**kw) if case["enders"][x] == "fail" else SwitchPhase("main", **kw))
         else:
-            stmts.append(AssignFunctionCall(("w_" + x,), "<func>rec", (g["ids"].index(x),), **kw))
+            asg = () if x in case.get("noassign", ()) else ("w_" + x,)
+            stmts.append(AssignFunctionCall(asg, "<func>rec", (g["ids"].index(x),), **kw))
     if case["bare_nop"]:
         stmts.append(Nop(id="bare_nop", depends_on=frozenset([g["ids"][0]])))
     phase = ExecutionPhase("main", "main", frozenset(stmts))
@@ -496,7 +499,8 @@ def check_e2e_phases(case, rec, hang_s=30.0):
                 stmts.append(FailStep(**kw) if ph["enders"][x] == "fail"
                              else SwitchPhase(f"ph{ph['switch_to']}", **kw))
             else:
-                stmts.append(AssignFunctionCall(("w_" + x,), "<func>rec", (code,), **kw))
+                asg = () if (pool.index(x) + p) % 3 == 0 else ("w_" + x,)      # (every third: effect only)
+                stmts.append(AssignFunctionCall(asg, "<func>rec", (code,), **kw))
         phs[f"ph{p}"] = ExecutionPhase(f"ph{p}", f"ph{ph['next']}", frozenset(stmts))
     dag = DAGCode(phs, "ph0")
     if case.get("printed"):
